@@ -35,6 +35,9 @@ BABEL = {'english': 'en-GB', 'german': 'de-DE', 'russian': 'ru-RU', 'french': 'f
 MAIN = {'en': 'en', 'de': 'de', 'ru': 'ru', 'fr': 'fr', 'en-GB': 'en-GB', 'de-DE': 'de-DE'}
 MSP = ['\\ ', '\\,', '~', '\\;', '\\quad ', '\\: ', '\\qquad ']
 
+# several maths spaces in a row, and the negative thin space (ignored) next to the delimiter (seeded changes C10-G/H)
+LEAD2 = ['\\,\\;', '\\!\\,', '\\!\\!~', '\\quad\\qquad ']
+TRAIL2 = ['\\;\\;', '\\,~', '\\quad\\qquad ', '\\ \\ ', '\\;\\!', '\\ \\!', '~\\!\\!']
 atom = st.sampled_from(['x', 'y', 'z', 'u', 'v', '1', '2', '\\alpha', '\\beta', 'xy', '10'])
 
 
@@ -56,11 +59,11 @@ expr = st.recursive(atom, elem, max_leaves=5)
 op = st.sampled_from(['+', '-', '=', '<', '>', '\\le ', '\\cdot ', '\\times ', '/', '\\to ', '\\ne ', ' = ', ' +\n', '%c\n+', ':'])
 body = st.tuples(expr, st.lists(st.tuples(op, expr), max_size=3)).map(lambda t: t[0] + ''.join(o + e for o, e in t[1]))
 formula = st.tuples(st.sampled_from(['$', '\\(']),
-                    st.one_of(st.just(''), st.just(''), st.sampled_from(MSP)),
+                    st.one_of(st.just(''), st.just(''), st.sampled_from(MSP), st.sampled_from(LEAD2)),
                     st.one_of(body, body, body, st.sampled_from(['=', '\\le', '+', '.', '\\to']),
                               body.map(lambda b: b + ', \\dots'), body.map(lambda b: b + '+\\ldots'), body.map(lambda b: b + ' \\cdots')),
                     st.sampled_from(['', '', '.', ',', ';', ':']),
-                    st.sampled_from(['', '', '', '\\,', '\\quad ', '~', ' \\label{kk}', '\\nonumber', ' %c\n', '\\ ', '\n']))
+                    st.sampled_from(['', '', '', '\\,', '\\quad ', '~', ' \\label{kk}', '\\nonumber', ' %c\n', '\\ ', '\n'] + TRAIL2))
 CTX = ['text', 'text', 'head', 'arg', 'colorarg', 'foot', 'item', 'cell', 'foreign-ru', 'foreign-de', 'other-ru', 'other-de', 'foreign-fr', 'foreign-en']
 block = st.tuples(st.lists(st.sampled_from(CTX), min_size=1, max_size=2), st.lists(formula, min_size=1, max_size=4))
 sel = st.tuples(st.just('select'), st.sampled_from(['russian', 'german', 'english', 'french']))
@@ -147,7 +150,7 @@ def render(doc):
             r.src += ' ' + Rw + '\n'
             last = (bd + punct).rstrip()[-1]
             r.forms.append({'L': L, 'R': Rw, 'lo': lo, 'hi': hi, 'lead': bool(lead),
-                            'trail': trail in ('\\,', '\\quad ', '~', '\\ '),
+                            'trail': trail in ('\\,', '\\quad ', '~', '\\ ') or trail in TRAIL2,
                             'punct': last if last in '.,;:' else '', 'lang': stack[-1], 'ctx': list(ctxs)})
         for c in reversed(closers):
             r.src += c
